@@ -9,15 +9,20 @@ EXPLANATION = ("Q1 the transition relation of the start/next/finish shims, obtai
                "Ok(None) at the head of the chain or on a direct stream -> Done, the callee's result is returned unmodified; finish on "
                "Closed returns the synthetic rc 80 without calls, otherwise the inner finish sets Closed and returns the stored result "
                "or the synthetic rc 88; Q7 a stream that was not read to the end (any state but Done) answers 88 even if a result is "
-               "stored - or else every adapter path that starts a follow-up Search has emptied stream.res; Q2 the inner receive hands out ResultEntry(tag, controls) built from the received item's own "
-               "components, stores Done's result and returns Ok(None), maps a closed channel to Err(EndOfStream); the control list of the stored "
+               "stored - or else every adapter path that starts a follow-up Search has emptied stream.res; Q2 the inner receive (evaluated from state Active, constructors of the entry type evaluated, stores to the components of the value applied) hands out ResultEntry(tag, controls) of the received item's own "
+               "components for entries and continuation references alike, stores Done's result and returns Ok(None) - on no path but the one on which the stream's own receiver yielded the SearchResultDone -, maps a closed channel to Err(EndOfStream); the control list of the stored "
                "result, as a list term over the list the received result carries itself and the vector received next to it, composed with "
                "what the driver puts into those two when it forwards a SearchResultDone, is exactly the decoded control list - once; "
                "Q5 cancel safety: nothing is moved out of the stream across an await of the stepping function, and no shim leaves a field changed only for the time its callee runs (the chain position) when its future is dropped at that await; Q3 constants (is_ref <=> 19, is_intermediate <=> 25, 80, 88); Q4 Ldap::search = streaming_search_with(EntriesOnly) + "
-               "push every entry in order + finish; EntriesOnly drops intermediates, collects referral URIs, passes everything else.")
+               "push every entry in order + finish; EntriesOnly drops intermediates, collects referral URIs, passes everything else; its finish() returns, on every path, the upstream result with the collected URIs appended to the referral list "
+               "that result came back with (untouched on a path that found nothing collected); Q8 every Adapter::next of the crate returns an upstream error as it is: a path that ends while the upstream result is Err, or not known to be Ok, returns that result, a path that goes on knows it to be Ok.")
 TRUSTED = ['the adapter chain is entered through these shims only (fields are private: witness crate)', 'tokio mpsc FIFO']
 UNDECIDED = ['what the server sent (C01 carries it to the channel)', 'user-defined adapters']
-SHARED = [('C01', ('R3.controls', 'R3.protocol-op', 'R4.'), 'Q6.driver-forwards-the-message')]      # what the stream yields is what the driver put into its channel: the decoded protocolOp and control list, classified by tag number
+SHARED = [('C01', ('R3.controls', 'R3.protocol-op', 'R4.'), 'Q6.driver-forwards-the-message'),      # what the stream yields is what the driver put into its channel: the decoded protocolOp and control list, classified by tag number
+          # "all call sequences of next()/finish()/state() on direct and adapted streams" - through either API: the synchronous EntryStream
+          # must be the asynchronous stream driven to completion, call by call (a test of its own before the call is fine exactly when the
+          # asynchronous method, entered in the states the test selects, answers the same without doing anything)
+          ('C14', ('E.',), 'Q9.sync-stream-is-the-async-stream')]
 ASSUMPTIONS = ['adapters called through the chain are summarised as opaque calls whose result is classified Err / Ok(None) / other']
 
 STATES = ['Fresh', 'Active', 'Done', 'Closed', 'Error']
@@ -256,8 +261,20 @@ def run(ctx):
                 % (shim, ', '.join('%s = %s' % b for b in sorted(brack))))
     ctx.floor('Q5', 'await points on the paths of next_inner', n_aw, 1)
     ctx.analysed['bodies'].add(N.path)
-    outs = [o for o in run_from(f, N, 'Active') if o.kind in ('val', 'ret')]
+    # a workspace function that builds the entry type (`ResultEntry::new`) is evaluated, not summarised: what counts is the value
+    # handed out, whoever put it together
+    ENTRY_TY = 'ldap3::search::ResultEntry'
+    builds_entry = lambda cal: (f.items.get(cal) or {}).get('output') == ENTRY_TY and not (f.items.get(cal) or {}).get('asyncness') and cal in f.hir
+    outs = [o for o in run_from(f, N, 'Active', inline=builds_entry) if o.kind in ('val', 'ret')]
     kinds = set()
+    # the item channel's receive on this path: recv() on the stream's own receiver, bare or under the per-item timeout
+    is_recv = lambda t: t[0] == 'call' and t[1].startswith('tokio::sync::mpsc::') and t[1].endswith('Receiver::<T>::recv') and len(t[2]) == 1 and sem.has(t[2][0], lambda x: x == ('field', SELF, 'rx'))
+    def recv_result(t):
+        if t[0] == 'await' and is_recv(t[1]):
+            return True
+        return t[0] == 'variant' and t[2] == 'Ok' and t[1][0] == 'await' and t[1][1][0] == 'call' and t[1][1][1] == 'tokio::time::timeout::timeout' and len(t[1][1][2]) == 2 and is_recv(t[1][1][2][1])
+    received_item = lambda t: t[0] == 'variant' and t[2] == 'Some' and t[3] == 0 and recv_result(t[1])       # the (SearchItem, Vec<Control>) pair
+    item_variants = [hirq.short_def(v['path']) for v in (f.items.get('ldap3::search::SearchItem') or {}).get('variants', [])]
     import donectrls
     pairs, n_pairs = None, 0
     for o in outs:
@@ -270,18 +287,40 @@ def run(ctx):
                 ctx.add('Q2.closed-channel', 'Err(EndOfStream)', loc(N.root), rx == ('ctor', 'None', ()), 'closed channel: receiver not dropped')
             continue
         if v[0] == 'ctor' and v[1] == 'Ok' and v[2] and v[2][0][0] == 'ctor' and v[2][0][1] == 'Some':
-            re = v[2][0][2][0]
+            # the VALUE handed out at the end of the path: the constructor term with the stores the path made to its components
+            # applied (`let mut e = ResultEntry::new(tag); e.1 = controls; Ok(Some(e))` hands out ResultEntry(tag, controls))
+            re = current_value(v[2][0][2][0], o.st.heap)
             ok = re[0] == 'ctor' and re[1].endswith('ResultEntry') and len(re[2]) == 2
+            what, why = absx.fmt(re)[:60], 'the value handed out is not a ResultEntry the rule can read: %s' % absx.fmt(re)[:80]
             if ok:
                 tag, ctr = re[2]
-                # tag = payload of Entry/Referral of <item>.0, ctr = <item>.1 of the same received tuple
-                ok = tag[0] == 'variant' and tag[2] in ('SearchItem::Entry', 'SearchItem::Referral') and tag[1][0] == 'field' and tag[1][2] == '0' \
-                    and ctr == ('field', tag[1][1], '1')
+                # tag = payload of Entry/Referral of <item>.0, ctr = <item>.1 of the same received pair - for directory entries AND
+                # for continuation references (a reference's envelope carries controls like any other message's)
+                okt = tag[0] == 'variant' and tag[2] in ('SearchItem::Entry', 'SearchItem::Referral') and tag[3] == 0 and tag[1][0] == 'field' and tag[1][2] == '0' \
+                    and received_item(tag[1][1])
+                ok = okt and ctr == ('field', tag[1][1], '1')
+                if okt:
+                    what = tag[2]
+                    why = 'the %s handed out carries the control list %s, not the control list received with it (<received item>.1): the controls of the message\'s envelope do not reach the caller' % (
+                        'continuation reference' if tag[2].endswith('Referral') else 'entry', absx.fmt(ctr)[:50] if ctr != ('vec', ()) else 'vec![] (empty)')
+                else:
+                    why = 'the entry handed out does not carry the tag of the item received on the stream\'s own channel: %s' % absx.fmt(tag)[:80]
                 kinds.add(tag[2] if ok else 'bad')
-            ctx.add('Q2.entry-from-received-item', absx.fmt(re)[:60], loc(N.root), ok, 'the entry handed out is not (tag, controls) of the received item')
+            ctx.add('Q2.entry-from-received-item', what, loc(N.root), ok, why)
             continue
         if v == ('ctor', 'Ok', (('ctor', 'None', ()),)):
             kinds.add('done')
+            # Ok(None) - "this Search is complete" - is answered only on a path on which the stream's own receiver yielded an item and
+            # that item is the SearchResultDone.  A closed channel, a result left in self.res by an earlier Search of the same stream
+            # (PagedResults keeps page k-1's there while page k is read) or the stream's state are not that: the adapter would take
+            # an abandoned page for a finished one and ask for it again
+            got_done = sem.variant_truth(o.st.pc, lambda x: x[0] == 'field' and x[2] == '0' and received_item(x[1]), 'SearchItem::Done', item_variants)
+            ctx.add('Q2.end-of-stream-means-done-received', 'Ok(None)|' + ('item received' if sem.succeeded(o, recv_result) else 'channel closed' if sem.failed(o, recv_result) else 'receive not tested'),
+                    loc(N.root), got_done is True,
+                    'next_inner answers Ok(None) on a path on which the stream\'s own receiver did not yield a SearchResultDone (%s): the end of a Search is reported '
+                    'without its result having arrived on this receiver - with PagedResults the previous page\'s result is still in self.res, so an abandoned or lost page '
+                    'is taken for a finished one, its cookie is used again and entries are delivered twice' % (
+                        'the channel was closed' if sem.failed(o, recv_result) else 'the received item is not known to be Done'))
             rx = o.st.heap.get(('field', SELF, 'rx'))
             # what self.res holds when the path returns: Some(X) where X is the Done message's own result, nothing of it overwritten
             # but its control list (assigned field by field, extended in place, or rebuilt with `..res`), and the receiver dropped
@@ -378,16 +417,43 @@ def run(ctx):
     EF = hirq.Body(f, f.body(EN + 'finish'))
     ctx.analysed['bodies'].add(EF.path)
     outs = absx.Interp(f, EF).run(root=inner_async_body(EF.root))
-    okf = False
+    # on every path: the value returned is the upstream finish() result, whose referral list then holds what it held when it
+    # came back followed by the URIs the adapter collected (extend / append / extend_from_slice, moved or copied out of self.refs) -
+    # or, on a path that found nothing collected (`self.refs.is_empty()`), that list untouched.  Assigning the collected vector to
+    # it drops the referrals the server put into the SearchResultDone itself
+    REFS0 = ('field', SELF, 'refs')
+    n_merge = 0
     for o in outs:
+        if o.kind not in ('val', 'ret'):
+            ctx.fail('Q4.entries-only.finish-merges-refs', o.kind, loc(EF.root), 'EntriesOnly::finish has a path ending in %s' % o.kind)
+            continue
         fin = [e for e in o.st.ev if e[0] == 'call' and e[1].endswith('::finish') and 'SearchStream' in e[1]]
-        ext = [e for e in o.st.ev if e[0] == 'call' and e[1].rsplit('::', 1)[-1] in ('extend', 'append', 'extend_from_slice')]
-        if len(fin) == 1 and len(ext) == 1:
-            res = ('await', ('call', fin[0][1], fin[0][2], fin[0][3].get('id')))
-            # the collected URIs (moved or copied out of self.refs) are appended to the upstream result's list, which is then returned
-            okf = o.val == res and ext[0][2][0] == ('field', res, 'refs') and ext[0][2][1] == ('field', SELF, 'refs') \
-                and not [e for e in o.st.ev if e[0] == 'store' and e[1] == ('field', res, 'refs')]
-    ctx.add('Q4.entries-only.finish-merges-refs', EF.path, loc(EF.root), okf, 'EntriesOnly::finish does not append the collected referral URIs to the upstream result')
+        none_collected = pc_truth(o, lambda a: a[0] == 'call' and a[1].endswith('::is_empty') and a[2] == (REFS0,))
+        which = 'collected=%s' % {True: 'none', False: 'some', None: 'any'}[none_collected]
+        if len(fin) != 1:
+            ctx.fail('Q4.entries-only.finish-merges-refs', which, loc(EF.root), 'a path of EntriesOnly::finish calls the upstream finish() %d times' % len(fin))
+            continue
+        res = ('await', ('call', fin[0][1], fin[0][2], fin[0][3].get('id')))
+        own = ('field', res, 'refs')
+        have = o.st.heap.get(own, own)
+        others = sorted(k[2] for k in o.st.heap if k[0] == 'field' and k[1] == res and k[2] != 'refs')
+        merged = have == ('concat', own, REFS0)
+        if not merged and have == own:
+            # the same through an iterator over the collected vector (`extend(self.refs.drain(..))`, `extend(self.refs.iter().cloned())`):
+            # the one mutating call on the result's list on this path is an extend with every collected element, front to back
+            touching = [e for e in o.st.ev if e[0] == 'call' and e[2] and e[2][0] == own and e[1].rsplit('::', 1)[-1] not in absx.PURE_OBSERVERS]
+            merged = len(touching) == 1 and touching[0][1].rsplit('::', 1)[-1] in ('extend', 'extend_from_slice') and len(touching[0][2]) == 2 and every_element_of(touching[0][2][1], REFS0)
+        n_merge += merged
+        okf = o.val == res and not others and (merged or (have == own and none_collected is True))
+        ctx.add('Q4.entries-only.finish-merges-refs', which, loc(EF.root), okf,
+                'EntriesOnly::finish must return the upstream result with the collected referral URIs appended to the referral list that result came back with; '
+                'on this path it returns %s with refs = %s%s: %s' % (
+                    absx.fmt(o.val)[:40], absx.fmt(have)[:70], (' and %s overwritten' % ', '.join(others)) if others else '',
+                    'the referral list decoded from the SearchResultDone is replaced by the collected one' if have == REFS0 else
+                    'the collected referrals are dropped' if have == own else 'that is not <result>.refs ++ self.refs'))
+    ctx.add('Q4.entries-only.finish-merges-refs', 'coverage', loc(EF.root), n_merge >= 1, 'no path of EntriesOnly::finish appends the collected referral URIs to the upstream result')
+
+    adapters_pass_upstream_errors(ctx, f)
 
     # an adapter instance outlives one search (the chain is cloneable and a running stream hands out clones of its adapters for a
     # follow-up search): the referrals reported for a search are those received for it only if the accumulator is empty when the
@@ -416,6 +482,65 @@ def run(ctx):
                 'already served (or was cloned from one serving) another search reports that search\'s referrals in this one\'s result')
     ctx.floor('Q4', 'paths of EntriesOnly::start reaching the upstream start()', n_up, 1)
 
+
+def current_value(v, heap):
+    """The value a constructor term denotes at the end of a path: stores the path made to its positional components (heap entries
+    keyed by the term itself) replace the components it was built with.  Any other term is returned as it is (an opaque call term
+    with some fields overwritten is not a value the rules can read: they fail closed on it)."""
+    if v[0] == 'ctor':
+        return ('ctor', v[1], tuple(current_value(heap.get(('field', v, str(i)), a), heap) for i, a in enumerate(v[2])))
+    return v
+
+def adapters_pass_upstream_errors(ctx, f):
+    """Q8, for every Adapter::next of the crate, on every path: when the upstream next() - the next adapter of the chain or the
+    stream itself - answered Err, the adapter returns that very error.  Stated over the path condition: a path that ends the call
+    while the upstream result is known to be Err, or is not known to be Ok (the path tested it with a pattern that an Err merely
+    fails to match, e.g. `while let Ok(Some(x))`), must return that result - itself, its Err taken apart and put together again,
+    or propagated by `?`; a path that goes round the loop again must know it to be Ok.  Otherwise an error of the inner stream
+    (a Timeout, a lost connection) reaches the caller as the end of the stream or not at all."""
+    n_ad = 0
+    for p, h in sorted(f.hir.items()):
+        if not (p.startswith('<ldap3::adapters::') and ' as ldap3::adapters::Adapter<' in p and p.endswith('>::next')):
+            continue
+        B = hirq.Body(f, h)
+        ctx.analysed['bodies'].add(p)
+        name = p.split(' as ')[0].lstrip('<').split('<')[0].rsplit('::', 1)[-1]
+        n_ad += 1
+        n_err = 0
+        for o in absx.Interp(f, B, unroll=1, for_once=True, combinators=True).run(root=inner_async_body(B.root)):
+            ups = [e for e in o.st.ev if e[0] == 'call' and e[1].endswith('::next') and 'SearchStream' in e[1]]
+            if not ups or o.kind == 'div':
+                continue
+            r = ('await', ('call', ups[-1][1], ups[-1][2], ups[-1][3].get('id')))
+            cls = step_class(o, r)
+            if cls not in ('Err', 'untested'):
+                continue
+            may = 'failed' if cls == 'Err' else 'may have failed (the path does not know its result to be Ok)'
+            if o.kind in ('ret', 'val'):
+                ok = sem.reconstructs(o.val, r) and (cls == 'Err' or o.val == r) and (not sem.is_ok_result(o.val))
+                n_err += ok
+                ctx.add('Q8.adapter-passes-upstream-error', '%s|%s|returns' % (name, cls), loc(B.root), ok,
+                        '%s::next returns %s on a path on which the upstream next() %s: an error of the inner stream (e.g. the Timeout of a timed search) '
+                        'must reach the caller as that error, not as the end of the stream or an item' % (name, absx.fmt(o.val)[:50], may))
+            else:
+                ctx.fail('Q8.adapter-passes-upstream-error', '%s|%s|%s' % (name, cls, o.kind), loc(B.root),
+                         '%s::next goes on (%s) on a path on which the upstream next() %s' % (name, o.kind, may))
+        ctx.add('Q8.adapter-passes-upstream-error', name + '|coverage', loc(B.root), n_err >= 1, 'no path of %s::next on which an upstream error is returned' % name)
+    ctx.floor('Q8', 'Adapter::next implementations of the crate', n_ad, 2)
+
+def every_element_of(t, vec):
+    """t iterates (or is a copy of) every element of the vector term `vec`, front to back: the vector itself, its iter() / into_iter()
+    / iter().cloned() / .copied(), a clone / to_vec / as_slice of it, drain(..) over the full range.  (std: each of these yields
+    all elements in order; none filters, reorders or stops early.)"""
+    if t == vec:
+        return True
+    if t[0] == 'call' and t[2]:
+        name = t[1].rsplit('::', 1)[-1]
+        if name in ('iter', 'into_iter', 'iter_mut', 'cloned', 'copied', 'clone', 'to_vec', 'to_owned', 'as_slice', 'as_mut_slice') and len(t[2]) == 1:
+            return every_element_of(t[2][0], vec)
+        if name == 'drain' and len(t[2]) == 2 and t[2][1][0] == 'struct' and t[2][1][1].endswith('RangeFull'):
+            return every_element_of(t[2][0], vec)
+    return False
 
 def stored_final_result(o):
     """(base, ctrls, other fields written) of the value X that `self.res` holds as Some(X) at the end of path o: base is the value
